@@ -1,6 +1,6 @@
 """C16 -- sanitize() closes the requirement relation minimally and reports truthfully."""
 
-from . import graphrules, common
+from . import buildrules, graphrules, common
 
 
 def check(ctx, rep):
@@ -11,10 +11,11 @@ def check(ctx, rep):
         "short-circuit or a condition on the flag), for every scheduler class. R16.4 fold table: the body of "
         "the member loop is evaluated for every valuation of (flag before, removed, nested, nested result) "
         "and the returned value must equal `for all members: not removed and (nested => nested result)`; "
-        "the first differing row is printed.")
+        "the first differing row is printed. R16.7 (= R19.8) the sets sanitize() prunes in place are each job's own: `required` is written only by the documented writers, and a store to it stores a fresh set, never an object the caller or another job may hold (pruning one job would silently prune the other).")
     rep.trusted = ["T8 set algebra, short-circuit evaluation"]
     graphrules.sanitize_rules(ctx, rep, "R16.1", "R16.2", "R16.3", "R16.4")
     p, r = ctx.prog, ctx.roles
     funcs = [p.supplier(c, 'sanitize') for c in [r.sched] + r.nestable]
     common.job_truthiness(ctx, rep, "R16.5", funcs)
     common.no_state_across_calls(ctx, rep, "R16.6", funcs)
+    buildrules.relation_writers(ctx, rep, "R16.7")
